@@ -463,6 +463,15 @@ def run(ctx):
         res.append(digest(mine, skipped if mine else 0, {k - off: v for k, v in diag.items()}))
         off += len(lines)
     a, b, f = res
+    # Binding demonstration: the same judge must reject a corrupted line (the
+    # first check of the first walk with its verdict flipped).
+    k = next(i for i, ln in enumerate(every) if ln["a"] == "check")
+    forged = every[:k] + [dict(every[k], v=not every[k]["v"])]
+    fbad, _, _ = validate(ctx, forged, "forged")
+    if fbad != [len(forged)]:
+        raise vlib.Inconclusive("the trace spec accepted a corrupted line: nothing binds")
+    cov["binding_demo"] = {"corrupted_trace_line_rejected": True,
+                           "line": {x: forged[-1][x] for x in ("a", "q", "v")}, "name": forged[-1]["n"]["l"]}
     # A trace in which nothing was ever blocked / cached shows nothing -- unless
     # it is the code's misbehaviour that made it so, which is reported first.
     if vacuous and not ctx.violations:
